@@ -29,6 +29,8 @@ LOSS_CFG = [
     {}, {'water_loss': True}, {'ammonia_loss': True}, {'water_loss': True, 'ammonia_loss': True},
     {'losses': [['K', -10.0]]}, {'losses': [['K', -10.0], ['K', -3.5]]}, {'losses': ['S', -1.25]},
     {'losses': [['[SK]', -10.0]], 'water_loss': True},
+    # rules whose match depends on the string they are applied to: anchors, look-ahead, two residues
+    {'losses': [['^S', -1.5], ['K$', -2.5]]}, {'losses': [['S(?=K)', -3.0], ['KK', -4.0]]},
 ]
 
 
